@@ -280,6 +280,32 @@ def dsl_refs_doc(n_refs):
     }
 
 
+# one workflow ("echo <format> <v1>") written in three formats, for directories that hold several of them
+def multi_flowir_doc():
+    return {'variables': {'default': {'global': {'v1': 'base1'}}},
+            'components': [{'name': 'greet', 'stage': 0,
+                            'command': {'executable': 'echo', 'arguments': 'from-flowir %(v1)s'}}]}
+
+
+def multi_dsl_doc():
+    return {
+        'entrypoint': {'entry-instance': 'main', 'execute': [{'target': '<entry-instance>', 'args': {'v1': 'base1'}}]},
+        'workflows': [{'signature': {'name': 'main', 'parameters': [{'name': 'v%d' % i, 'default': 'd%d' % i}
+                                                                    for i in (1, 2, 3, 4)]},
+                       'steps': {'greet': 'echo'},
+                       'execute': [{'target': '<greet>', 'args': {'x': '%(v1)s'}}]}],
+        'components': [{'signature': {'name': 'echo', 'parameters': [{'name': 'x'}]},
+                        'command': {'executable': 'echo', 'arguments': 'from-dsl %(x)s'}}],
+    }
+
+
+MULTI_DOSINI = {
+    'conf/experiment.conf': [],
+    'conf/variables.conf': [('GLOBAL', [('v1', 'base1')])],
+    'conf/stages.d/stage0.conf': [('greet', [('executable', 'echo'), ('arguments', 'from-dosini %(v1)s')])],
+}
+
+
 # packages that must be rejected (two independent problems each): the outcome must not depend on the process either
 FLOWIR_BROKEN = {
     'components': [
@@ -416,8 +442,8 @@ def build(root, thorough):
         f.write('input\n')
 
     def add(tid, family, group, mode, package, platform=None, vf=None, listing=None, inputs=None, sweep=False,
-            small=False, seed0=False, descr=None, names=None, kind=None):
-        tasks.append({'id': tid, 'family': family, 'group': group, 'mode': mode, 'package': package,
+            small=False, seed0=False, descr=None, names=None, kind=None, preload=False):
+        tasks.append({'preload': preload, 'id': tid, 'family': family, 'group': group, 'mode': mode, 'package': package,
                       'platform': platform, 'variable_files': vf, 'listing': listing, 'inputs': inputs,
                       'sweep': sweep, 'small': small, 'seed0': seed0, 'descr': descr or {}, 'names': names,
                       'kind': kind})
@@ -465,6 +491,33 @@ def build(root, thorough):
     for tid, mode, package, plat, inputs, is_small in base:
         add(tid, 'hash', tid, mode, package, plat, inputs=inputs, sweep=True, small=is_small,
             descr={'package': os.path.basename(package), 'mode': mode, 'platform': plat})
+
+    # ---- package directories that are readable in more than one format (every combination of the formats the factory
+    #      knows that can be written by hand: dosini, dsl, flowir; cwl needs cwltool documents and is left out). The
+    #      representations differ observably (each echoes its own format name), so which one is loaded shows in the dump.
+    for fmts in (('dosini', 'flowir'), ('dsl', 'flowir'), ('dosini', 'dsl'), ('dosini', 'dsl', 'flowir')):
+        name = 'multi-%s' % '-'.join(fmts)
+        p = os.path.join(pk, '%s.package' % name)
+        files = {}
+        if 'flowir' in fmts:
+            files['conf/flowir_package.yaml'] = yaml.safe_dump(multi_flowir_doc(), sort_keys=False)
+        if 'dsl' in fmts:
+            files['conf/dsl.yaml'] = yaml.safe_dump(multi_dsl_doc(), sort_keys=False)
+        if 'dosini' in fmts:
+            files.update({rel: render_ini(secs) for rel, secs in MULTI_DOSINI.items()})
+        write_tree(p, files)
+        for mode, vf_names in (('conf', None), ('graph', None), ('exp', None), ('conf', ['one.yaml'])):
+            tid = 'hash/%s/%s/%s' % (name, mode, '+'.join(vf_names) if vf_names else 'None')
+            add(tid, 'hash', tid, mode, p, vf=[os.path.join(vfd, n) for n in vf_names] if vf_names else None,
+                sweep=True, small=True,
+                descr={'package': os.path.basename(p), 'mode': mode, 'formats': list(fmts), 'variable_files': vf_names})
+    # the same class as it arises in practice: a non-FlowIR package after a first load that stored its FlowIR translation
+    for name, package in (('dslvars', p_dslvars), ('dosvars', p_dosvars), ('dsl', p_dsl)):
+        for mode, vf_names in (('conf', None), ('conf', ['one.yaml']), ('graph', ['two.yaml'])):
+            tid = 'hash/preloaded-%s/%s/%s' % (name, mode, '+'.join(vf_names) if vf_names else 'None')
+            add(tid, 'hash', tid, mode, package, vf=[os.path.join(vfd, n) for n in vf_names] if vf_names else None,
+                sweep=True, small=True, preload=True,
+                descr={'package': os.path.basename(package), 'mode': mode, 'preloaded': True, 'variable_files': vf_names})
 
     # ---- family varfiles: every ordered selection of 2..3 (thorough: ..4) of the variable files
     pool = ['one.yaml', 'two.yaml', 'three.conf'] + (['four.yml'] if thorough else [])
@@ -568,6 +621,8 @@ for r in recipes:
         for x in r['b']:
             b.add(x)
         o = list(a.union(b))
+    elif op == 'project':
+        o = [x for x in {y for y in r['a']} if x in r['keep']]
     else:
         raise SystemExit('unknown op')
     out.append(o)
